@@ -20,23 +20,6 @@ variable {K : Type} [Field K]
 set_option linter.unusedSimpArgs false
 set_option linter.unusedSectionVars false
 
-/-- a component draws no current from a node it is not connected to -/
-theorem outflow_eq_zero_of_not_node (kind : Kind) (s : K) (x : Ix → K) (k : Nat) (c : Cpt K)
-    (h : ∀ n ∈ nodesOf c, n ≠ k) : outflow kind s x k c = 0 := by
-  cases c <;> simp only [nodesOf, List.mem_cons, List.mem_nil_iff, or_false, forall_eq_or_imp, forall_eq] at h <;>
-    simp [outflow, twoTerm, h]
-
-theorem lsum_outflow_zero (kind : Kind) (s : K) (x : Ix → K) (k : Nat) (cs : List (Cpt K))
-    (h : ∀ c ∈ cs, ∀ n ∈ nodesOf c, n ≠ k) : lsum (cs.map (outflow kind s x k)) = 0 := by
-  apply lsum_zero
-  intro v hv
-  obtain ⟨c, hc, rfl⟩ := List.mem_map.mp hv
-  exact outflow_eq_zero_of_not_node kind s x k c (h c hc)
-
-theorem lsum_map_append (f : Cpt K → K) (a b : List (Cpt K)) :
-    lsum ((a ++ b).map f) = lsum (a.map f) + lsum (b.map f) := by
-  rw [List.map_append, lsum_append]
-
 /-- **load_substitution** -/
 theorem load_substitution (kind : Kind) (s : K) (cs load : List (Cpt K)) (p m : Nat) (z : Ix → K) (hpm : p ≠ m)
     (hsep : ∀ c ∈ load, ∀ n ∈ nodesOf c, n = p ∨ n = m ∨ ∀ c' ∈ cs, ∀ n' ∈ nodesOf c', n' ≠ n)
